@@ -72,6 +72,17 @@ impl TimeZone {
             None
         };
 
+        // Every lookup needs either a local time type or the footer rule
+        if transitions
+            .iter()
+            .any(|transition| transition.local_time_type_index >= local_time_types.len())
+            || (local_time_types.is_empty() && extra_rule.is_none())
+        {
+            return Err(TimeZoneError::InvalidTzFile(
+                "Transition refers to a missing local time type",
+            ));
+        }
+
         Ok(Self {
             transitions,
             local_time_types,
